@@ -22,7 +22,8 @@ DRIVER_EXE = "drv_ctor"
 RULE = ("default POSC database, read only. (A) every unit (thorough; a seeded third in quick) x every category of "
         "the unit's quantity type x {Scalar, Array, FixedArray, FractionScalar} x 2 sampled values (floats, ints, "
         "list/tuple/ndarray containers, FractionValue): all documented forms (v,u) (v,u,c) (c,v,u) ((v,u)) "
-        "(ObtainQuantity(u,c),v) CreateWithQuantity keyword-call ObtainQuantity(u): result (error kind or class, "
+        "(ObtainQuantity(u,c),v) CreateWithQuantity keyword-call ObtainQuantity(u); values include Python ints that "
+        "no double holds exactly (2**53+1, 10**23, ...), bools and numpy integers, sent with their float image: result (error kind or class, "
         "category, unit, quantity type, value, dimension) and == against the first form in both directions; "
         "eval(repr) for the Scalar cases; (B) all categories x 4 classes: category only vs default value/unit forms "
         "and the default converted into other units; (C) a malformed stream (wrong orders, missing unit, unit of "
@@ -30,6 +31,7 @@ RULE = ("default POSC database, read only. (A) every unit (thorough; a seeded th
         "distinct list of forms; non-trivial = at least two forms built an object")
 EXHAUSTIVE = {"quick": False, "thorough": True}
 ASSUMPTIONS = [
+    "float(n) of a Python int (round to nearest even) is Python's: the harness sends n and float(n)",
     "float(s) of a str argument, repr/eval of a finite float and the parsing of a quoted literal without escapes "
     "are Python's, not modelled (the harness supplies float(s))",
     "memo tables (quantities_cache, _category_unit_valid) only replay results on a database that is not edited (C15)",
@@ -58,10 +60,25 @@ def S(s, with_float=True):
 
 
 def N(x):
+    """a number: float; int (with its float image "fl" when no double holds it exactly: the constructors store
+    float(x), correctly rounded by Python); bool; numpy integer scalar"""
+    from fractions import Fraction as F
+
+    if isinstance(x, (bool, numpy.bool_)):
+        return {"b": bool(x)}
+    if isinstance(x, numpy.integer):
+        return {"n": qstr(F(int(x))), "np": type(x).__name__}
     d = {"n": qstr(exact(x))}
     if isinstance(x, int):
         d["int"] = True
+        if float(x) != x:
+            d["fl"] = qstr(exact(float(x)))
     return d
+
+
+# values that are not floats and do not all compare equal to their float image
+SPECIAL = [2 ** 53 + 1, -(2 ** 53 + 1), 10 ** 23, -(2 ** 60) - 1, 123456789012345678, 2 ** 53, True, False,
+           numpy.int64(7), numpy.int32(-3)]
 
 
 def SEQ(kind, items):
@@ -103,9 +120,13 @@ def form(cls, a1=None, a2=None, a3=None, k="ctor", dim=None, dimkw=None, kw=Fals
 def py_atom(j):
     if j is None:
         return None
+    if "b" in j:
+        return bool(j["b"])
     if "s" in j:
         return unsym(int(j["s"]))
     q = qparse(j["n"])
+    if j.get("np"):
+        return getattr(numpy, j["np"])(int(q))
     if j.get("int"):
         return int(q)
     return q.numerator / q.denominator
@@ -255,12 +276,14 @@ def setup(ctx):
 
 def _scalar_value(rng):
     return rng.choice([2.5, -1.0, 7, 0.0, 1e-7, 123456.789, rng.uniform(-1000, 1000),
-                       10.0 ** rng.uniform(-9, 9) * rng.choice((1, -1)), rng.randint(-50, 50)])
+                       10.0 ** rng.uniform(-9, 9) * rng.choice((1, -1)), rng.randint(-50, 50),
+                       rng.choice(SPECIAL), rng.choice(SPECIAL)])
 
 
 def _container(rng, n=None):
     n = n or rng.randint(2, 4)
-    items = [rng.choice([1.0, 2.5, -3.0, 0.0, rng.uniform(-100, 100), rng.randint(-9, 9)]) for _ in range(n)]
+    items = [rng.choice([1.0, 2.5, -3.0, 0.0, rng.uniform(-100, 100), rng.randint(-9, 9), rng.choice(SPECIAL)])
+             for _ in range(n)]
     kind = rng.choice(["list", "tuple", "nda"])
     if kind == "nda":
         items = [float(i) for i in items]
@@ -324,6 +347,24 @@ def unit_cases(ctx, units, rng, nvals, classes=CLS, only_default=False):
                                 unit=u, category=c, default=(c == dc))
 
 
+def special_cases(ctx, rng, nunits):
+    """every SPECIAL value (ints no double holds exactly, 2**53, bools, numpy integers) in every documented form of
+    the four classes, on a seeded sample of units with their default category"""
+    db = ctx.db
+    for _qt, u in rng.sample(ctx.units, min(nunits, len(ctx.units))):
+        dc = db.GetDefaultCategory(u)
+        if not dc:
+            continue
+        for v in SPECIAL:
+            w = rng.choice(SPECIAL)
+            kind = rng.choice(["list", "tuple", "nda"])
+            box = SEQ(kind, [float(v), float(w), 1.0] if kind == "nda" else [v, w, 1.0])
+            yield _case("unit", unit_forms("scalar", u, dc, v, True), want_repr=True, unit=u, category=dc, default=True)
+            yield _case("unit", unit_forms("fraction", u, dc, v, True), unit=u, category=dc, default=True)
+            yield _case("unit", unit_forms("array", u, dc, box, True), unit=u, category=dc, default=True)
+            yield _case("unit", unit_forms("fixed", u, dc, box, True), unit=u, category=dc, default=True)
+
+
 def category_cases(ctx, rng, nconv=2):
     db = ctx.db
     for c in ctx.cats:
@@ -372,7 +413,8 @@ def malformed_cases(ctx, rng, n):
     def atom(c, u):
         return rng.choice([None, None, u, c, u, c, "nope", "no such category", "", "5", "2.5", " 7 ", "m'", 3.5, 2,
                            rng.choice(units), rng.choice(ctx.cats), rng.choice(legacy) if legacy else "x",
-                           "1000ft3xyz", unit_of_other_type(c), "Unknown", "<unknown>", "unknown"])
+                           "1000ft3xyz", unit_of_other_type(c), "Unknown", "<unknown>", "unknown",
+                           rng.choice(SPECIAL)])
 
     def arg(c, u):
         r = rng.random()
@@ -455,6 +497,7 @@ def cases(ctx):
     if ctx.tier == "quick":
         units = sorted(rng.sample(units, len(units) // 3), key=lambda t: ctx.units.index(t))
     yield from unit_cases(ctx, units, rng, 2)
+    yield from special_cases(ctx, ctx.fresh_rng("C19special"), 25 if ctx.tier == "quick" else 150)
     yield from category_cases(ctx, rng, 1 if ctx.tier == "quick" else 3)
     yield from malformed_cases(ctx, ctx.fresh_rng("C19bad"), 1500 if ctx.tier == "quick" else 15000)
     yield from lit_cases(ctx, ctx.fresh_rng("C19lit"), 300 if ctx.tier == "quick" else 3000)
@@ -475,10 +518,14 @@ def case_key(c):
 def _show_atom(j):
     if j is None:
         return None
+    if isinstance(j, dict) and "b" in j:
+        return bool(j["b"])
     if isinstance(j, dict) and "s" in j:
         return unsym(int(j["s"]))
     if isinstance(j, dict) and "n" in j:
         q = qparse(j["n"])
+        if j.get("np"):
+            return getattr(numpy, j["np"])(int(q))
         return int(q) if j.get("int") else q.numerator / q.denominator
     return j
 
@@ -756,6 +803,7 @@ def table_candidates(ctx):
 
 def search(ctx):
     rng = ctx.fresh_rng("C19search")
+    yield from special_cases(ctx, rng, 12)
     yield from category_cases(ctx, rng, 0)
     yield from unit_cases(ctx, ctx.units, rng, 1, only_default=True)
     yield from unit_cases(ctx, ctx.units, rng, 2, only_default=True)
